@@ -14,8 +14,12 @@ expired however often it is evicted and reloaded in between."
 * `knows_step`, `knows_all_histories`: the invariant holds along every history satisfying `Hist3OK`;
 * `c03_active_not_stale`: the object found under a served id less than `sessionExpiry` after it was served has
   `lastAccess ≥ truncC t`, is not refused as stale, and (address / User-Agent tests off) passes `validFor`;
-  `c03_active_kept_id_partial`: … and when it is a session proper the request returns `sess` with that very object
-  (the reference-record case is left to C05); `c03_expired_sound_global`: `Expired()` is false on it;
+  `c03_active_kept_id_partial`: … and when it is a session proper the request returns `sess` with that very object;
+  **`c03_active_kept_id`**: the same for a live session reached from `i` through a chain of reference records of any
+  length (`More.Leads`, `More.c05_chain_resolves`) when the id back-stop does not fire;
+  `c03_expired_sound_global`: `Expired()` is false on it; **`c03_expired_refused`**: conversely, at any boundary of any
+  fault-free history, when `Expired()` is true on the session proper found under `i`, a request presenting `i` is
+  refused (deletion cookie; at most a brand-new session);
   `c03_active_kept_partial`: the client-level form, with the jar/ghost link `Link3` as a hypothesis;
 * no carve-out is needed for the size-1 cache: a session evicted in mid-request by the `Set` of its own reference
   record is flushed with the stamp of that very instant (`regenerate_served`), and a handler's later write-through of
@@ -801,6 +805,175 @@ theorem c03_expired_sound_global {c : Codec} (w : World) (orc : Orc) (hw : WInv 
   | false => rfl
   | true => exact absurd (Loc.c03_c_expired_sound href he) hns
 
+/-- the object `cache.Get` would hand out for a served id (`More.PresObj`: the cached object, else the decoded stored
+record) carries an access time at least as late as the (truncated) time the id was served at. -/
+theorem c03_presObj_fresh (w : World) (orc : Orc) {g : G3} (hk : Knows w g)
+    {i : ID} {t : Int} (hs : lookup i g.served = some t) {o : Sess} (hobj : More.PresObj (orcSt w orc) i o) :
+    truncC w.cfg.codec t ≤ o.lastAccess := by
+  have hks0 : KS w.cfg.codec g.served w.cur (orcSt w orc) := hk.ks.congr rfl rfl rfl rfl
+  rcases hobj with ⟨x, hl, rfl⟩ | ⟨hn, r, hl, rfl⟩
+  · exact hks0.kn i t _ hs (known_hit hl)
+  · have : known (orcSt w orc) i = some r.lastAccess := by rw [known_miss hn, hl]; rfl
+    exact hks0.kn i t _ hs this
+
+/-- a chain with at least one link ends in its last id. -/
+theorem leads_snoc {s : State} : ∀ (l : List ID) (k m cur : ID), More.Leads s k (m :: l) cur → ∃ mids, m :: l = mids ++ [cur]
+  | [], k, m, cur, ⟨_, e, _⟩ => ⟨[], by rw [e]; rfl⟩
+  | m' :: l, k, m, cur, ⟨_, h2⟩ => by
+    obtain ⟨mids, e⟩ := leads_snoc l m m' cur h2
+    exact ⟨m :: mids, by rw [e]; rfl⟩
+
+/-- **C03, an active session is kept (ID level, sessions proper AND reference records).** In a world satisfying the
+invariants (any boundary of a history as in `knows_all_histories`), let the id `i` have been served at `t`, let less
+than `SessionExpiry` have passed since (`t` as the codec keeps it), and let the session be live: from `i` a chain of
+reference records of any length `l` — none when `i` is the current id — leads to a session proper (`More.Leads`). Then
+a request presenting `i` (any client, by value or from its jar), with the address/User-Agent tests switched off
+(`AcceptAll`) and — when the record found under `i` is a reference — the id back-stop `idExpiry + grace` not firing on
+it, is answered with `sess`: it is given a session proper (the live session of the chain; `c03_active_kept_id_partial`
+says more when `i` is the current id). However often the session and the reference records were evicted, idle-swept,
+purged and re-loaded in between. -/
+theorem c03_active_kept_id {c : Codec} (le : ID → ID → Bool) (w : World) (orc : Orc) (hw : More.WInv3 c w) {g : G3}
+    (hk : Knows w g) (ho : OrcOK orc) (client : String) (spec : CookieSpec) (ip ua : String) (create : Bool)
+    {i : ID} {t : Int} (hp : presentedOf w client spec = some (i, 24)) (hs : lookup i g.served = some t)
+    (hfresh : w.st.now - truncC w.cfg.codec t < w.cfg.sessionExpiry) (hacc : AcceptAll w.cfg)
+    {o : Sess} (hobj : More.PresObj (orcSt w orc) i o) {l : List ID} {cur : ID} (hlive : More.Leads (orcSt w orc) i l cur)
+    (hback : o.ref ≠ none →
+      ¬ (since w.st.now o.created ≥ w.cfg.idExpiry ∧ since w.st.now o.created - w.cfg.idExpiry ≥ w.cfg.grace)) :
+    (w.step le orc (.req client spec ip ua create)).2.ret = some (.str "sess") ∧
+    ∃ h, (w.step le orc (.req client spec ip ua create)).1.cur = some h ∧
+      ((w.step le orc (.req client spec ip ua create)).1.st.obj h).ref = none := by
+  have hsk' : w.skip = false := hk.alive.1
+  obtain ⟨hinv, _⟩ := hw.inv.good hsk'
+  obtain ⟨hi3, _⟩ := hw.w3.good hsk'
+  have hcd := hw.inv.codec
+  subst hcd
+  have hnf0 : NoFail (orcSt w orc) := ho
+  have hinv0 : Inv w.cfg.codec (orcSt w orc) := hinv.congr rfl rfl rfl rfl rfl
+  have hi30 : More.I3 (orcSt w orc) := hi3.congr rfl rfl rfl
+  have hle := c03_presObj_fresh w orc hk hs hobj
+  cases l with
+  | nil =>
+    -- `i` is the current id: the found object is the session proper
+    obtain ⟨e, hR⟩ := hlive
+    subst e
+    have horef : o.ref = none := More.c05_refAt_unique (More.c05_presObj_refAt hobj) hR
+    obtain ⟨h, g1, g2, _⟩ := More.c05_cacheGet_pres w.cfg (orcSt w orc) i o hnf0 hobj
+    generalize hg : cacheGet w.cfg (orcSt w orc) i = out at g1 g2
+    obtain ⟨s1, res, e1⟩ := out
+    simp only at g1 g2
+    subst g1
+    obtain ⟨r1, r2, _, _⟩ := c03_active_kept_id_partial le w orc hw.inv hk ho client spec ip ua create hp hs hfresh hacc hg
+      (by rw [g2]; exact horef)
+    refine ⟨r1, h, r2, ?_⟩
+    -- the returned object is a session proper
+    have hw' := More.step_inv3 le w orc (.req client spec ip ua create) hw ho trivial
+    have hsk2 : (w.step le orc (.req client spec ip ua create)).1.skip = false := by
+      have := (step_req_fst le w orc client spec ip ua create hsk')
+      rw [this, apiCall_fst]
+      simp [reqW, hsk', hk.alive.2.1, apiFrz]
+    exact (hw'.w3.good hsk2).2 h r2
+  | cons m rest =>
+    obtain ⟨mids, hm⟩ := leads_snoc rest i m cur hlive
+    have horef : o.ref = some m := More.c05_refAt_unique (More.c05_presObj_refAt hobj) hlive.1
+    obtain ⟨hck, hlen⟩ := reqOf_presented ip ua create hp
+    have hv : validFor w.cfg (orcSt w orc).now o (reqOf w client spec ip ua create) = true := by
+      unfold validFor
+      rw [ipOK_acceptAll hacc, uaOK_acceptAll hacc]
+      simp only [Bool.and_true, Bool.not_eq_true', decide_eq_false_iff_not]
+      show ¬ (since w.st.now o.lastAccess ≥ w.cfg.sessionExpiry)
+      unfold since; omega
+    have hchain : More.Chain (orcSt w orc) i mids cur := by unfold More.Chain; rw [← hm]; exact hlive
+    obtain ⟨h, c1, c2, _⟩ := More.c05_chain_resolves w.cfg (orcSt w orc) (reqOf w client spec ip ua create) i cur mids o
+      hck hlen hnf0 hinv0 hi30 hobj hv (hback (by rw [horef]; simp)) hchain
+    obtain ⟨hv1, hv2⟩ := step_req_view le w orc client spec ip ua create hsk' hk.alive.2.1
+    have hret : (w.step le orc (.req client spec ip ua create)).2.ret =
+        some (resStr (start w.cfg (orcSt w orc) (reqOf w client spec ip ua create)).2.1).1 := by
+      rw [step_req_snd le w orc client spec ip ua create hsk']
+      exact apiCall_ret (reqW w orc client spec (reqOf w client spec ip ua create)) orc
+        (reqRun w (reqOf w client spec ip ua create)) true
+    refine ⟨by rw [hret, c1]; rfl, h, by rw [hv1, c1], ?_⟩
+    rw [obj_of_heap_eq hv2]; exact c2
+
+theorem apiCall_cookies3 (w : World) (orc : Orc) (run : State → State × RetV × Option String × List Ev) (b : Bool) :
+    (apiCall w orc run b).2.cookies = (run (orcSt w orc)).2.2.2.filter isCookie := by
+  unfold apiCall
+  show _ = (run { w.st with fails := orc.fails, picks := orc.picks }).2.2.2.filter isCookie
+  generalize run { w.st with fails := orc.fails, picks := orc.picks } = r
+  obtain ⟨s1, ret, msg, evs⟩ := r
+  simp only []
+
+/-- **C03, `Expired()` is sound, at every boundary of every fault-free history.** If `Expired()` evaluated now on the
+session proper found under `i` (cached, or as stored) reports `true`, a request presenting `i` at the same instant
+(any client, by value or from its jar) is refused: the response carries the deletion cookie, and a session it is
+given nevertheless (`createIfNew`) is a brand-new one under the id minted right now. (Only `WInv` is needed: any
+configuration, cache enabled or not, after cache loss, … — `Expired()` never reports true for a session that a
+request would still be given.) -/
+theorem c03_expired_refused {c : Codec} (le : ID → ID → Bool) (w : World) (orc : Orc) (hw : WInv c w) (hsk : w.skip = false)
+    (hfz : w.freezeAt = none) (ho : OrcOK orc) (client : String) (spec : CookieSpec) (ip ua : String) (create : Bool)
+    {i : ID} (hp : presentedOf w client spec = some (i, 24)) {o : Sess} (hobj : More.PresObj (orcSt w orc) i o)
+    (href : o.ref = none) (hexp : expired w.cfg w.st.now o = true) :
+    Ev.delCookie ∈ (w.step le orc (.req client spec ip ua create)).2.cookies ∧
+    ∀ h, (w.step le orc (.req client spec ip ua create)).1.cur = some h →
+      ((w.step le orc (.req client spec ip ua create)).1.st.obj h).id = .gen w.st.nextId := by
+  obtain ⟨hinv, _⟩ := hw.good hsk
+  have hcd := hw.codec
+  subst hcd
+  have hnf0 : NoFail (orcSt w orc) := ho
+  have hinv0 : Inv w.cfg.codec (orcSt w orc) := hinv.congr rfl rfl rfl rfl rfl
+  obtain ⟨hck, hlen⟩ := reqOf_presented ip ua create hp
+  obtain ⟨hv1, hv2⟩ := step_req_view le w orc client spec ip ua create hsk hfz
+  have hcks : (w.step le orc (.req client spec ip ua create)).2.cookies =
+      (start w.cfg (orcSt w orc) (reqOf w client spec ip ua create)).2.2.filter isCookie := by
+    rw [step_req_snd le w orc client spec ip ua create hsk]
+    exact apiCall_cookies3 (reqW w orc client spec (reqOf w client spec ip ua create)) orc
+      (reqRun w (reqOf w client spec ip ua create)) true
+  generalize reqOf w client spec ip ua create = r at hck hlen hv1 hv2 hcks
+  obtain ⟨h0, g1, g2, g3⟩ := More.c05_cacheGet_pres w.cfg (orcSt w orc) i o hnf0 hobj
+  have hstart : Ev.delCookie ∈ (start w.cfg (orcSt w orc) r).2.2 ∧
+      ∀ h, (start w.cfg (orcSt w orc) r).2.1 = .sess h → ((start w.cfg (orcSt w orc) r).1.obj h).id = .gen w.st.nextId := by
+    rcases start_cases w.cfg (orcSt w orc) r hnf0 hinv0 with ⟨hno, _⟩ | ⟨id, s1, res, e1, hck', _, hg, gd, hcase⟩
+    · rcases hno with e | e
+      · rw [hck] at e; cases e
+      · exact absurd hlen e
+    · rw [hck] at hck'
+      simp only [Option.some.injEq] at hck'
+      subst hck'
+      rw [hg] at g1 g2 g3
+      simp only at g1 g2 g3
+      subst g1
+      rcases hcase with ⟨e, _⟩ | ⟨h', e, hk', _, hfound⟩
+      · cases e
+      · simp only [GetRes.some.injEq] at e
+        subst e
+        have hvf : validFor w.cfg s1.now (s1.obj h0) r = false := by
+          rw [g2, g3]; exact Loc.c03_c_expired_invalid r href hexp
+        have hn1 : s1.nextId = w.st.nextId := gd.fr.2.1
+        rcases hfound with ⟨_, heq⟩ | ⟨hv', _⟩ | ⟨hv', _⟩ | ⟨_, hv', _⟩ | ⟨_, hv', _⟩
+        · rw [heq]
+          have hnf1 := delSt_nofail i gd.nofail
+          have hi1 := delSt_inv (c := w.cfg.codec) (x := none) i gd.inv
+          refine ⟨?_, ?_⟩
+          · cases hcr : r.create with
+            | false => rw [Loc.createNew_no _ hcr]; simp
+            | true =>
+              rw [(createNew_delta w.cfg (delSt s1 i) r _ hnf1 hi1 hcr).evs]
+              simp
+          · intro h hh
+            have := (createNew_new w.cfg (delSt s1 i) r _ hnf1 hi1 h hh).1
+            rw [this]
+            show ID.gen s1.nextId = _
+            rw [hn1]
+        all_goals (rw [hvf] at hv'; cases hv')
+  refine ⟨by rw [hcks]; exact List.mem_filter.2 ⟨hstart.1, rfl⟩, ?_⟩
+  intro h hc
+  rw [hv1] at hc
+  rw [obj_of_heap_eq hv2]
+  apply hstart.2 h
+  cases hr : (start w.cfg (orcSt w orc) r).2.1 with
+  | sess h' => rw [hr] at hc; simp only [Option.some.injEq] at hc; rw [hc]
+  | nil => rw [hr] at hc; cases hc
+  | err m => rw [hr] at hc; cases hc
+
 /-! ### the client level -/
 
 /-- **the link between a client's jar and the ghost** (between requests): the id in the client's jar has been served
@@ -951,6 +1124,25 @@ def linkB (w : World) (g : G3) : Bool :=
 #guard (runK idLe { cfg := c03_cfg .gob } {} (c03_script.take 27)).2.lastOK == [("a", 13 * sec + 8)] &&
   (runK idLe { cfg := c03_cfg .gob } {} (c03_script.take 27)).1.jars == [("a", .gen 3), ("c", .gen 2)] &&
   lookup (.gen 3) (runK idLe { cfg := c03_cfg .gob } {} (c03_script.take 27)).2.served == some (13 * sec + 8)
+
+/-- the reference-record case of `c03_active_kept_id`: `gen 0` is served at time 0 and rotated (`gen 0 ↦ gen 1`) two
+seconds later; other clients' traffic evicts everything from the size-1 cache; three seconds later a stranger presents
+the replaced id `gen 0` by value (same address and User-Agent, the tests are on in `c03_cfg`) — served less than
+`SessionExpiry` ago — and is given the live session `gen 1`. -/
+def c03_ref_script : List (Orc × Op) :=
+  [ ({}, .req "a" .none "1.2.3.4:5" "ua" true), ({}, .h (.set "k" (.int 1))), ({}, .endReq),    -- gen 0
+    ({}, .cfg "idExpiry" 1), ({}, .wait (2 * sec)),
+    ({}, .req "a" .jar "1.2.3.4:5" "ua" false), ({}, .endReq),                                   -- gen 0 ↦ gen 1
+    ({}, .cfg "idExpiry" 3600000000000),
+    ({}, .req "b" .none "5.6.7.8:9" "ub" true), ({}, .endReq),                                   -- gen 2, evicts
+    ({}, .wait (3 * sec)), ({}, .purge),
+    ({}, .req "z" (.val (.gen 0) 24) "1.2.3.4:5" "ua" false) ]                                   -- 12: the replaced id
+
+#guard [Codec.gob, Codec.json].all (fun c => hist3OKb idLe { cfg := c03_cfg c } c03_ref_script)
+#guard [Codec.gob, Codec.json].all (fun c =>
+  freshB (runK idLe { cfg := c03_cfg c } {} (c03_ref_script.take 12)) (.gen 0) &&
+  lastRet { cfg := c03_cfg c } c03_ref_script == some (.str "sess") &&
+  (curData (runHist idLe { cfg := c03_cfg c } c03_ref_script)).map (·.1) == some (.gen 1))
 
 /-! ### every named hypothesis is needed -/
 
